@@ -119,8 +119,8 @@ func c05faults(v gen.Variant) []c05fault {
 	// cross-kind duplicates (a block named like a value, a value named like a block).
 	type fn struct {
 		name       string
-		start, end int // byte range of the definition
-		bodyStart  int // offset just after the header line (and entry label, if any)
+		start, end int               // byte range of the definition
+		bodyStart  int               // offset just after the header line (and entry label, if any)
 		locals     map[string]string // token -> kind (label / value)
 	}
 	var fns []*fn
